@@ -17,9 +17,17 @@ static void* keep(void* p) {
   if (narena is carena) { carena = carena ? carena * 2 : 1024; arena = realloc(arena, carena * sizeof(void*)); }
   arena[narena++] = p; return p;
 }
+/* The temporaries of a case are released three cases later: a garbage heap object that the conservative
+** scan happens to retain (a Zip built over stack-class temporaries) may still be traced by a later
+** collection and must not point into freed memory. */
+#define ARENA_GENS 3
+static void** old_arena[ARENA_GENS]; static size_t old_n[ARENA_GENS];
 static void arena_free(void) {
-  for (size_t i = 0; i < narena; i++) { free(arena[i]); }
-  narena = 0;
+  for (size_t i = 0; i < old_n[ARENA_GENS-1]; i++) { free(old_arena[ARENA_GENS-1][i]); }
+  free(old_arena[ARENA_GENS-1]);
+  for (int g = ARENA_GENS-1; g > 0; g--) { old_arena[g] = old_arena[g-1]; old_n[g] = old_n[g-1]; }
+  old_arena[0] = arena; old_n[0] = narena;
+  arena = NULL; narena = 0; carena = 0;
 }
 
 static var mk_stack(var type, const void* data, size_t sz) {
